@@ -181,13 +181,4 @@ def SPc.depth? : SPc → Option Nat
   | .top d | .search d | .lock d | .store d | .unlock d | .drain d | .send d | .closeInit d => some d
   | _ => none
 
-/-! ## `TimeControl.Limits` (arithmetic only) -/
-
-/-- `TimeControl.Limits`: `(soft, hard)` from the remaining time and the moves to go, in Go's `int64`
-arithmetic (`/` truncates: `Int.tdiv`). -/
-def limits (remaining moves : Int) : Int × Int :=
-  let m := if moves > 0 then moves + 1 else 40
-  let soft := Int.tdiv remaining (2 * m)
-  (soft, 3 * soft)
-
 end Morlock.Model.IterConc
